@@ -19,8 +19,9 @@ from . import fsmodel as fs
 from .fsmodel import VArr
 
 F = 'klongpy/db/file_cache.py::FileCache.'
-IntArr = z3.ArraySort(Str, Int)
-BoolArr = z3.ArraySort(Str, Bool)
+FKey = fs.FKey
+IntArr = z3.ArraySort(FKey, Int)
+BoolArr = z3.ArraySort(FKey, Bool)
 IdBool = z3.ArraySort(Int, Bool)
 IdStr = z3.ArraySort(Int, Str)
 MSUM = z3.Function('msum', BoolArr, IntArr, Int)          # sum of bytes[f] over counted[f]
@@ -53,7 +54,7 @@ def mk_cache(st, cls='FileCache', held=False):
         'dom': VArr(z3.Const('M_dom0', BoolArr)), 'writing': VArr(z3.Const('M_writing0', BoolArr)),
         'bytes': VArr(z3.Const('M_bytes0', IntArr)), 'fid': VArr(z3.Const('M_fid0', IntArr)),
         'counted': VArr(z3.Const('M_counted0', BoolArr))}, fresh=False)
-    lock = st.alloc('Lock', {'__held': lift(held)}, fresh=False)
+    lock = st.alloc('Lock', {'__held': fresh(Bool, 'held') if held is None else lift(held)}, fresh=False)
     ex = st.alloc('Executor', {}, fresh=False)
     c = st.alloc(cls, {'max_memory': fresh(Int, 'max_memory'), 'root_path': fresh(Str, 'root'),
                        'current_memory_usage': fresh(Int, 'cur'), 'file_futures': ff,
@@ -68,7 +69,7 @@ def mk_cache(st, cls='FileCache', held=False):
 
 
 def path_of(st, c, file_name):
-    return VStr(fs.JOIN(st.field(c, 'root_path').t, file_name.t))
+    return VU(fs.JOIN(st.field(c, 'root_path').t, file_name.t))
 
 
 # ------------------------------------------------------------------ locks
@@ -101,7 +102,7 @@ def lock_method(eng, v, attr, st, node):
 # ------------------------------------------------------------------ file_futures map
 def ff_entry(st, ff, f):
     """the entry stored under f as a Python tuple (writing, bytes, future)"""
-    fut = st.alloc('Future', {'__id': st.field(ff, 'fid')[f], '__task': NONE}, fresh=False)
+    fut = st.alloc('Future', {'__id': st.field(ff, 'fid')[f], '__task': NONE, '__wflag': st.field(ff, 'writing')[f]}, fresh=False)
     return VTuple([st.field(ff, 'writing')[f], st.field(ff, 'bytes')[f], fut])
 
 
@@ -194,7 +195,17 @@ def future_method(eng, v, attr, st, node):
             outs = []
             for s2, failed in e.branch(s, s.ghost['failed_ids'][fid].t, 'future.failed'):
                 if failed:
-                    outs.append(e.exc(s2, '<any>', n))
+                    # the stored exception of a failed task: tasks of this cache fail with OSError instances only (their contracts)
+                    # a failed load raised IsADirectoryError / FileNotFoundError (open 'rb'); a failed write some OSError
+                    s2.trail.append('cached-failure')
+                    wflag = s2.heap[v.oid].get('__wflag')
+                    for s3, w in (e.branch(s2, wflag.t, 'failed-entry-writing') if wflag is not None else [(s2, True)]):
+                        if w:
+                            outs.append((s3, Raised(VExc('OSError', site=getattr(n, 'lineno', None), declared=True))))
+                        else:
+                            s4 = s3.fork()
+                            outs.append((s3, Raised(VExc('IsADirectoryError', site=getattr(n, 'lineno', None)))))
+                            outs.append((s4, Raised(VExc('FileNotFoundError', site=getattr(n, 'lineno', None)))))
                 else:
                     e.oblige(f"{e.cur_key}#future.result-of-complete-task@{e.site_ordinal('result', n)}", s2, s2.ghost['done_ids'][fid], kind='future')
                     s2.assume(s2.ghost['done_ids'][fid])
